@@ -159,6 +159,19 @@ def run(ctx):
     quick = ctx.tier == "quick"
     reqs, meta = [], []
     Bs = [3, 5, 7, 9]
+    # the witness of fixed defect D15 (an isolated vertex left behind by the stripping of trailing edges) runs first
+    D15 = dict(n_lines=8, B=3, off=np.array([-0.1540393344282669, 0.011065973569577059, 0.39120940950057914]), disorder=0.1, seed=230225941)
+    try:
+        np.random.seed(D15["seed"])
+        with warnings.catch_warnings():
+            warnings.simplefilter("ignore")
+            lw = qc.de_brujin_grid(D15["n_lines"], D15["B"], D15["off"], D15["disorder"])
+        if np.any(lw.vertices.coordination_numbers < 2):
+            ctx.impl_violation("D15 witness de_brujin_grid(8, 3, ..., 0.1): dangling edge / isolated vertex (degrees " + str(sorted(set(lw.vertices.coordination_numbers.tolist()))) + ")",
+                               dict(case="D15 witness", n_lines=8, B=3, offsets=D15["off"].tolist(), disorder=0.1, seed=D15["seed"]))
+        ctx.case(("D15 witness",), nontrivial=True)
+    except Exception as ex:
+        ctx.impl_violation(f"D15 witness raised {type(ex).__name__}: {ex}", dict(case="D15 witness", n_lines=8, B=3, offsets=D15["off"].tolist(), disorder=0.1, seed=D15["seed"]))
     lines = [5, 6, 8] if quick else list(range(5, 15))
     for B in Bs:
         for n_lines in lines:
